@@ -415,3 +415,36 @@ Example C05_embedded_non_struct_pinned :
   /\ canon cfg_plain (e2 some)
      = DMap [(DString [105; 110; 110; 101; 114], DMap [(DString [97], DScalar (EInt 7))]); (DString [98], DScalar (EInt 8))].
 Proof. vm_compute. repeat split. Qed.
+
+(* ---- one iterator, several documents ----------------------------------------------------- *)
+
+(* A Marshaler may keep one RootObjectIterator for all its documents.  Every document stands on its
+   own (the reference tables are made anew by every Iterate); only the marker names continue
+   counting ([iterate_outcome_from n]: n = the first marker name).  The first document is the
+   document of a fresh iterator, and every later one runs to completion as well. *)
+Theorem C05_first_document_of_a_reused_iterator :
+  forall (cfg : icfg) (root : option gval),
+    let '(es, ok, _) := iterate_outcome_from 0 cfg root in iterate_outcome cfg root = (es, ok).
+Proof. exact iterate_outcome_from_0. Qed.
+Print Assumptions C05_first_document_of_a_reused_iterator.
+Theorem C05_later_documents_complete :
+  forall (n : N) (cfg : icfg) (root : option gval),
+    let '(_, ok, _) := iterate_outcome_from n cfg root in ok = true.
+Proof. exact iterate_outcome_from_completes. Qed.
+Print Assumptions C05_later_documents_complete.
+
+(* the same ring (a -> b -> a) twice through one iterator: the second document carries its own
+   marker (named 1: the names go on) and is accepted and resolved like the first *)
+Example C05_example_reused_iterator :
+  let fld n := mkF n true false ODefault 9223372036854775807%Z in
+  let ring := VPtr 1 (VStruct 1 [(fld [73], VInt 1);
+                (fld [78], VPtr 2 (VStruct 1 [(fld [73], VInt 2); (fld [78], VPtr 1 VNilPtr)]))]) in
+  let doc m := [EBeginDoc; EVersion 0; EMarker m; EMap; EStringArray AT_String [105]; EInt 1; EStringArray AT_String [110];
+                EMap; EStringArray AT_String [105]; EInt 2; EStringArray AT_String [110]; ERefLocal m; EEnd; EEnd; EEndDoc] in
+  iterate_outcome_from 0 cfg_rec (Some ring) = (doc [48], true, 1)
+  /\ iterate_outcome_from 1 cfg_rec (Some ring) = (doc [49], true, 2)
+  /\ accepts_document default_rcfg (doc [49]) = true
+  /\ iterate_seq_case_ok (cfg_rec, [(Some ring, doc [48], true, None); (Some ring, doc [49], true, None)]) = true
+  /\ iterate_seq_case_ok (cfg_rec, [(Some ring, doc [48], true, None);
+                                    (Some ring, [EBeginDoc; EVersion 0; ERefLocal [48]; EEndDoc], true, Some 2)]) = false.
+Proof. vm_compute. repeat split. Qed.
